@@ -115,7 +115,7 @@ ACTION_CONSTRAINT Emit
 """
 SPEC_MUTANTS = [
     ("add-appends-even-if-present", "IF o[1] \\in Rng(order) THEN order ELSE Append(order, o[1])", "Append(order, o[1])"),
-    ("clear-does-not-notify", "         /\\ notified' = notified + 1 /\\ outcome' = \"ok\" /\\ Log([op |-> \"clear\", arg |-> <<>>])", "         /\\ notified' = notified /\\ outcome' = \"ok\" /\\ Log([op |-> \"clear\", arg |-> <<>>])"),
+    ("clear-does-not-notify", "         /\\ notified' = notified + 1 /\\ outcome' = \"ok\" /\\ touched' = FALSE /\\ Log([op |-> \"clear\", arg |-> <<>>])", "         /\\ notified' = notified /\\ outcome' = \"ok\" /\\ touched' = FALSE /\\ Log([op |-> \"clear\", arg |-> <<>>])"),
     ("neutrals-counted-as-ions", "Ions == {k \\in Present : k[2] > 0}", "Ions == Present"),
 ]
 
